@@ -46,6 +46,19 @@ func init() {
 		Models:      []string{"M-json", "M-swag.ConcatJSON", "M-reflect"},
 	})
 	reg(&PropSpec{
+		ID: "C15", Prefix: "vh_C15_", Repeat: 30,
+		Quick:    Tier{Params: map[string]int{"exts": 1, "extras": 1, "name_len": 1, "sizes": 1, "any_shapes": 2, "vary": 0, "case_twin": 1}},
+		Thorough: Tier{Params: map[string]int{"exts": 2, "extras": 1, "name_len": 1, "sizes": 1, "any_shapes": 2, "vary": 1, "vary_points": 60, "vary_alts": 4, "case_twin": 1}},
+		Bounds: []string{
+			"per kind: the symbolic normal-form document of C01 is decoded; for every keyword of the kind and every symbolic member name (extension, its case twin, unknown keyword) used as a one-token pointer, jsonpointer.GetForToken on the typed value (real JSONLookup + name provider from SSA, M-reflect) is compared with the member of the value's own JSON encoding",
+			"responses: tokens default, 200, 404, 099, 600, 99",
+			"asserted direction: the JSON form has the member => the typed lookup succeeds with an equal value (a typed lookup that yields a zero value for an absent optional member is not an error)",
+		},
+		Outside:     []string{"multi-token pointers are covered by induction over the pointer (each step lands on a kind with its own harness); numeric tokens into arrays; $ref members (excluded by the property)"},
+		Assumptions: []string{"as C01 normal form"},
+		Models:      []string{"M-json", "M-reflect (TypeOf/ValueOf/Indirect/Kind/FieldByName/MapIndex/Index/Interface/NumField/Field/Tag)", "swag name provider executed from SSA"},
+	})
+	reg(&PropSpec{
 		ID: "C11", Prefix: "vh_C11_",
 		Quick:    Tier{Params: map[string]int{"segs": 2, "seg_len": 2}},
 		Thorough: Tier{Params: map[string]int{"segs": 3, "seg_len": 2}},
